@@ -50,5 +50,30 @@ CLAIMED = {
   note="Bounds: user name <= 2/3 bytes, <= 1 group, client headers: optional Impersonate-User/-Group/-Extra-<k>/-<AnyWord> (canonical form), values <= 2-3 bytes; escape kernel: keys <= 3/4 arbitrary bytes. Stubs: k8s responsewriters (answer through the same ResponseWriter), name validators (arbitrary predicate), context (reference model). Outside: what net/http and client-go's credential wrappers put on the wire, Authorization header removal by k8s WithAuthentication (wiring not encoded yet), header-name casing (canonical form assumed, as net/http servers deliver), empty user names.",
   technique="symbolic execution of go/ssa (filter + transport wrapper + net/http/net/url from source) + SMT (QF_BV)",
   ref="9/C02"),
+ "C03": dict(
+  text="Bounded symbolic model checking of the dispatcher's real ServeHTTP against scripted collaborators: the request is forwarded to exactly the endpoint the picker returned (address and transport), and a failed pick is answered 503 with nothing forwarded.",
+  note="PARTIAL: only the forward-to-picked wiring and the 503 path are decided so far (skeleton harness, every collaborator answer symbolic). Not yet encoded: the selection predicate of Pop over symbolic endpoint maps, syncEndpoints, the probe start/stop state machine; true concurrency of probes/updates/requests is outside the technique.",
+  technique="symbolic execution of go/ssa (skeleton mode: real handler, symbolic fakes) + SMT",
+  ref="9/C03"),
+ "C04": dict(
+  text="Bounded symbolic model checking of the dispatcher's real ServeHTTP and TerminateWithError against scripted collaborators: every self-terminated request gets the status that tells why (429 / 503 with Retry-After) and is not forwarded; a forwarded request keeps method, path, query and end-to-end headers up to the proxy handler.",
+  note="PARTIAL: termination codes and the hand-over to the proxy handler for one concrete request shape. End-to-end fidelity through net/http, the vendored reverse proxy's header stripping and body copy, upgrades and streaming are not encoded (section 10).",
+  technique="symbolic execution of go/ssa (skeleton mode) + SMT",
+  ref="9/C04"),
+ "C05": dict(
+  text="Bounded symbolic model checking of the real local limiter stack (localWrapper.Sync, NewFlowControl, the real golib atomic max-in-flight bucket): one operation from an arbitrary reachable state (new request, end of a current or stale request, any reconfiguration incl. type and strategy changes) keeps 'free slots = M - unfinished admitted requests'; isolation between schemas; release-exactly-once on every exit path of the dispatcher (skeleton).",
+  note="Bounds: M, M' <= 2/3, <= 1 stale request, one operation per step (inductive), plus the concrete type-flip history. Sequential semantics: interleavings of the atomic bucket's operations are not decided (thread mode not built). KNOWN FINDING: a request admitted before a type flip releases into the new counter (see known_findings.json).",
+  technique="symbolic execution of go/ssa + SMT, inductive step with ghost bookkeeping",
+  ref="9/C05"),
+ "C15": dict(
+  text="Bounded symbolic model checking of the cancellation wiring in the dispatcher's real ServeHTTP: the watcher goroutine (run inline) cancels exactly the proxied request when the picked endpoint's context has ended, and not otherwise.",
+  note="PARTIAL: wiring only, with a reference model of package context. Not decided: promptness, streaming, net/http behaviour on cancellation, manager/ClusterInfo.Stop/syncEndpoints removal paths (not encoded yet).",
+  technique="symbolic execution of go/ssa (skeleton mode) + SMT",
+  ref="9/C15"),
+ "C18": dict(
+  text="Bounded symbolic model checking of the real cleanup paths (cleanupTimeoutClient, cleanupUnknownCondition, deleteCondition, ClientCache) on the real rateLimiter with the real in-memory store, under an arbitrary non-decreasing clock: live instances keep heartbeat, condition and quota; dead ones lose them after both sweeps and the recorded sum no longer contains their quota.",
+  note="Bounds: 2 instances, 1-2 reports of one and 1 of the other, one pass of each cleanup, symbolic clock readings. Goroutines are run inline; heartbeat/cleanup races and timers are outside. In-flight counts of the global-count strategy are not yet part of the harness.",
+  technique="symbolic execution of go/ssa + SMT (symbolic clock)",
+  ref="9/C18"),
 }
 NOT_APPLICABLE = {}
